@@ -78,7 +78,10 @@ impl<T: Payload> World<T> {
     pub fn obs_traverse(&mut self, viols: &mut Vec<Viol>) {
         let r = catch(|| self.obs_traverse_inner());
         match r {
-            Ok(v) => viols.extend(v),
+            Ok((v, h)) => {
+                viols.extend(v);
+                self.log.u64(h);
+            }
             Err(p) => {
                 viols.push(viol("C09", "panic_in_traversal", p.clone()));
                 viols.push(viol("C05", "panic_in_valid_call", format!("traversal panicked: {}", p)));
@@ -87,8 +90,9 @@ impl<T: Payload> World<T> {
     }
 
     #[allow(deprecated)]
-    fn obs_traverse_inner(&self) -> Vec<Viol> {
+    fn obs_traverse_inner(&self) -> (Vec<Viol>, u64) {
         let mut v: Vec<Viol> = Vec::new();
+        let hh = std::cell::Cell::new(Fnv::new());
         let arena = &self.arena;
         let m = &self.m;
         let budget = 2 * arena.count() + 3;
@@ -128,6 +132,12 @@ impl<T: Payload> World<T> {
 
             let mut node_check = |name: &'static str, got: (Vec<NodeId>, bool), exp: &[Key]| {
                 let (seq, finished) = got;
+                let mut h = hh.get();
+                h.str(name);
+                for i in &seq {
+                    h.u64(slot_of(*i) as u64);
+                }
+                hh.set(h);
                 if !finished {
                     v.push(viol("C02", "iterator_not_finite", format!("{} from {} yields more than {} items", name, slot_of(sid), budget)));
                     v.push(viol("C09", "iterator_not_finite", format!("{} from {}", name, slot_of(sid))));
@@ -158,6 +168,15 @@ impl<T: Payload> World<T> {
             let exp_r: Vec<NodeEdge> = exp_t.iter().rev().copied().collect();
             let mut edge_check = |name: &'static str, got: (Vec<NodeEdge>, bool), exp: &[NodeEdge]| {
                 let (seq, finished) = got;
+                let mut h = hh.get();
+                h.str(name);
+                for e in &seq {
+                    match e {
+                        NodeEdge::Start(i) => h.u64(slot_of(*i) as u64 * 2),
+                        NodeEdge::End(i) => h.u64(slot_of(*i) as u64 * 2 + 1),
+                    }
+                }
+                hh.set(h);
                 if !finished {
                     v.push(viol("C02", "iterator_not_finite", format!("{} from {} yields more than {} items", name, slot_of(sid), budget)));
                     v.push(viol("C09", "iterator_not_finite", format!("{} from {}", name, slot_of(sid))));
@@ -242,7 +261,7 @@ impl<T: Payload> World<T> {
                 break;
             }
         }
-        v
+        (v, hh.get().0)
     }
 
     /// C10: one pull schedule on one double-ended iterator.
@@ -526,6 +545,7 @@ impl<T: Payload> World<T> {
                     viols.push(viol("C14", "print_failed_without_sink_error", format!("mode {}", mode)));
                     return;
                 }
+                self.log.str(&sink.buf);
                 let got: Vec<String> = sink.buf.split('\n').map(|l| l.trim_end().to_string()).collect();
                 let exp: Vec<String> = expected.iter().map(|l| l.trim_end().to_string()).collect();
                 if got != exp {
